@@ -11,12 +11,16 @@ RootPd == [set |-> TRUE, segs |-> <<>>]
 NoEf == [set |-> FALSE, vars |-> NoEnv]
 Custom == [set |-> TRUE, vars |-> [v \in {"V"} |-> "custom"]]
 DotEnv1 == [v \in {"V", "W"} |-> IF v = "V" THEN "inc1env" ELSE "w1"]
+CustomN == [set |-> TRUE, vars |-> [v \in {"V"} |-> "nestedcustom"]]
+DotEnvN == [v \in {"V"} |-> "nestedenv"]
+NestedPd == [set |-> TRUE, segs |-> <<"nested">>]
 
 VARIABLE sc
 \* flags: which of i1 / i2 main includes (and in which order), options on i1, nesting, redefinition, cycle, environments
 Flags == [i1 : BOOLEAN, i2 : BOOLEAN, order12 : BOOLEAN, pd1 : BOOLEAN, ef1 : BOOLEAN, n1from1 : BOOLEAN, n1from2 : BOOLEAN,
           redef : {"none", "same", "different", "main-different", "main-same"}, cycle : {"none", "n1-main", "n1-i1", "i1-i1"},
-          parentV : BOOLEAN, dotenv1 : BOOLEAN, cenv : BOOLEAN]
+          parentV : BOOLEAN, dotenv1 : BOOLEAN, cenv : BOOLEAN,
+          efn : BOOLEAN, dotenvn : BOOLEAN, pdn : BOOLEAN]     \* on the nested include i1 -> n1: declared env_file, a .env beside n1, project_directory
 Sane(f) == /\ (f.i1 \/ f.i2)
            /\ (f.pd1 => f.i1 /\ ~f.n1from1 /\ f.cycle = "none")          \* with project_directory = root the nested relative include would not resolve
            /\ (f.ef1 => f.i1) /\ (f.n1from1 => f.i1) /\ (f.n1from2 => f.i2)
@@ -24,7 +28,9 @@ Sane(f) == /\ (f.i1 \/ f.i2)
            /\ (f.redef \in {"main-different", "main-same"} => f.i1)
            /\ (f.cycle \in {"n1-main", "n1-i1"} => f.n1from1) /\ (f.cycle = "i1-i1" => f.i1)
            /\ (~f.i1 => ~f.dotenv1 /\ ~f.order12 /\ ~f.cenv)
-Covering(f) == Full \/ (f.order12 = FALSE /\ (f.n1from2 => f.n1from1) /\ (f.cenv => ~f.n1from1 /\ f.redef = "none" /\ f.cycle = "none"))
+           /\ (f.efn \/ f.pdn => f.n1from1 /\ f.cycle = "none") /\ (f.dotenvn => f.n1from1 \/ f.n1from2)
+Covering(f) == Full \/ (/\ f.order12 = FALSE /\ (f.n1from2 => f.n1from1) /\ (f.cenv => ~f.n1from1 /\ f.redef = "none" /\ f.cycle = "none")
+                         /\ (f.efn \/ f.dotenvn \/ f.pdn => f.redef = "none" /\ f.cycle = "none" /\ ~f.i2 /\ ~f.cenv))
 Universe(f) ==
   [x \in {"main", "i1", "i2", "n1"} |->
      CASE x = "main" -> [dir |-> <<>>, dotenv |-> NoEnv,
@@ -35,11 +41,11 @@ Universe(f) ==
        [] x = "i1" -> [dir |-> <<"inc1">>, dotenv |-> (IF f.dotenv1 THEN DotEnv1 ELSE NoEnv),
                        defs |-> {D("services", "s1", 1), D("networks", "shared", 1), D("secrets", "sec1", 1), D("configs", "cfg1", 1)}
                                \cup (IF f.cenv THEN {D("configs", "cfgenv", 3), D("secrets", "secenv", 3)} ELSE {}),   \* variant 3: sourced from an environment variable
-                       includes |-> (IF f.n1from1 THEN <<Inc("n1", NoPd, NoEf)>> ELSE <<>>) \o (IF f.cycle = "i1-i1" THEN <<Inc("i1", NoPd, NoEf)>> ELSE <<>>)]
+                       includes |-> (IF f.n1from1 THEN <<Inc("n1", IF f.pdn THEN NestedPd ELSE NoPd, IF f.efn THEN CustomN ELSE NoEf)>> ELSE <<>>) \o (IF f.cycle = "i1-i1" THEN <<Inc("i1", NoPd, NoEf)>> ELSE <<>>)]
        [] x = "i2" -> [dir |-> <<"inc2">>, dotenv |-> NoEnv,
                        defs |-> {D("services", "s2", 1)} \cup (IF f.redef = "same" THEN {D("networks", "shared", 1)} ELSE IF f.redef = "different" THEN {D("networks", "shared", 2)} ELSE {}),
                        includes |-> (IF f.n1from2 THEN <<Inc("n1", NoPd, NoEf)>> ELSE <<>>)]
-       [] x = "n1" -> [dir |-> <<"inc1", "nested">>, dotenv |-> NoEnv,
+       [] x = "n1" -> [dir |-> <<"inc1", "nested">>, dotenv |-> (IF f.dotenvn THEN DotEnvN ELSE NoEnv),
                        defs |-> {D("services", "sn", 1), D("volumes", "vn", 1)},
                        includes |-> (IF f.cycle = "n1-main" THEN <<Inc("main", NoPd, NoEf)>> ELSE IF f.cycle = "n1-i1" THEN <<Inc("i1", NoPd, NoEf)>> ELSE <<>>)]]
 \* with project_directory the path is written relative to the including project directory: pd = <<>> means "."
